@@ -34,7 +34,7 @@ PARAM_TYPES = {
     "tup2": ("tuple[int, str]", ['(1, "a")', '(0, "")']),
     "tupn": ("tuple[int, ...]", ["()", "(1,)", "(1, 2, 3)", "(0, 0)"]),
     "tupv": ("tuple[int, Unpack[tuple[str, ...]], float]", ["(1, 1.5)", '(1, "a", 2.5)', '(0, "a", "b", 0.0)']),
-    "tupv2": ("tuple[int, Unpack[tuple[str, ...]], float, bool]", ["(1, 1.5, True)", '(1, "a", 2.5, False)', '(0, "a", "b", 0.0, True)']),
+    "tupv2": ("tuple[int, Unpack[tuple[str, ...]], float, str, None]", ['(1, 1.5, "z", None)', '(1, "a", 2.5, "", None)', '(0, "a", "b", 0.0, "z", None)']),
     "listint": ("list[int]", ["[]", "[1]", "[1, 2, 3]"]),
     "dictsi": ("dict[str, int]", ["{}", '{"a": 1}', '{"a": 0, "b": 2}']),
     "A": ("A", ["A()", "B()", "Falsy()"]),
@@ -681,15 +681,15 @@ def stmt_while(c, depth, ind, b):
     b.lines.append(f"{ind}{k} = 0")
     if form == 0:
         b.lines.append(f"{ind}while {k} < {rng.choice(['0', '1', '2', '3'])}:")
-        b.lines.append(f"{ind}    {k} += 1")
+        b.lines.append(f"{ind}    {k} = lib_int({k})")
     elif form == 1:
         cd = cond(c, 1)
         b.lines.append(f"{ind}while {k} < 2 and {cd.src}:")
-        b.lines.append(f"{ind}    {k} += 1")
+        b.lines.append(f"{ind}    {k} = lib_int({k})")
         bc = bc.refine(cd.pos)
     elif form == 2:
         b.lines.append(f"{ind}while True:")
-        b.lines.append(f"{ind}    {k} += 1")
+        b.lines.append(f"{ind}    {k} = lib_int({k})")
         b.lines.append(f"{ind}    if {k} > {rng.choice(['1', '2'])}:")
         b.lines.append(f"{ind}        break")
         c.hit("while-true")
@@ -701,7 +701,7 @@ def stmt_while(c, depth, ind, b):
             b.lines.append(f"{ind}    {u} = {rng.choice(['None', '0', literal(c, 'u')])}")
         else:
             b.lines.append(f"{ind}while {k} < 2:")
-            b.lines.append(f"{ind}    {k} += 1")
+            b.lines.append(f"{ind}    {k} = lib_int({k})")
     bb = block(bc, rng.randrange(1, 3), depth - 1, ind + "    ")
     b.lines += bb.lines
     loop_tail(c, bc, bb, depth, ind, b, True)
